@@ -39,12 +39,22 @@ Proof. eexists; eexists; eexists. split; [vm_compute; reflexivity | split; [vm_c
    * C01_search0: the EpsilonRecursive = 0 instance (also the base of the Bucketing/Elias-Fano/Mapped variants).
    Hypotheses: keys within the key type, last key below the sentinel, n < 2^32 (uint32 intercept), and the
    ONLY non-structural one: float_ok c data k -- every floating-point product evaluated on the routing path of
-   this query is within 1/2 of the exact product before truncation (eval_ok; DESIGN.md 4.2).  The Flocq
-   instantiation of float_ok under a span bound is not proved; the judge evaluates C01_pred_b on every query.
+   this query is within 1/2 of the exact product before truncation (eval_ok; DESIGN.md 4.2).
+   * C01_eval_ok_float / _double / _zero: eval_ok PROVED from Flocq's IEEE-754 semantics by a rounding-error
+     analysis whenever the exact position dy*(k-key)/dx is below 2^22 (float slopes) or 2^50 (double slopes) --
+     "a single segment spans < 2^22 positions" -- and for the slope-0 segments; so float_ok holds for every index
+     whose segments stay below that span.  (The assembly 'span bound for all segments => float_ok' is not stated
+     as one closed theorem.)
+   * C01_search_lo_tie / _hi_tie: the range expressions of search() regenerated from the source equal the model's.
    Also kept: the arithmetic core lemmas the composition rests on.""",
-   imports=["Base", "PlaModel", "PlaSpec", "GenLeaf", "IndexModel", "IndexProofs", "IdxFed", "IdxSeg", "IdxBlock", "IdxLevel", "IdxSearch0", "IdxRoute", "IdxChain", "IdxMain", "IdxBeyond", "IdxFuel"],
+   imports=["Base", "PlaModel", "PlaSpec", "GenLeaf", "IndexModel", "IndexProofs", "IdxFed", "IdxSeg", "IdxBlock", "IdxLevel", "IdxSearch0", "IdxRoute", "IdxChain", "IdxMain", "IdxBeyond", "IdxFuel", "LeafTie", "FloatOkLemmas", "FloatOk"],
    entries=[("C01_search", "@check", "C01_search"),
             ("C01_search0", "@check", "C01_search0"),
+            ("C01_eval_ok_float", "@check", "eval_ok_float_std"),
+            ("C01_eval_ok_double", "@check", "eval_ok_double_std"),
+            ("C01_eval_ok_zero", "@check", "eval_ok_zero_bounded"),
+            ("C01_search_lo_tie", "LeafTie.v", "search_lo_tie"),
+            ("C01_search_hi_tie", "LeafTie.v", "search_hi_tie"),
             ("C01_window_present", "IndexProofs.v", "window_present"),
             ("C01_pos_from_feasible_line", "IndexProofs.v", "pos_from_feasible_line"),
             ("C01_round_div_half", "IndexProofs.v", "round_div_half")]),
@@ -59,11 +69,13 @@ Proof. eexists; eexists; eexists. split; [vm_compute; reflexivity | split; [vm_c
    Same hypotheses as C01 (float_ok is the only non-structural one).
    NOT proved: last < q < sentinel on the binary-search routing path (EpsilonRecursive above the threshold) --
    three structural facts about the extra (last+1) segment are missing (IdxBeyond.v, final comment); judged.""",
-   imports=["Base", "PlaModel", "PlaSpec", "GenLeaf", "IndexModel", "IndexProofs", "IdxFed", "IdxSeg", "IdxBlock", "IdxLevel", "IdxSearch0", "IdxRoute", "IdxChain", "IdxMain", "IdxBeyond", "IdxFuel"],
+   imports=["Base", "PlaModel", "PlaSpec", "GenLeaf", "IndexModel", "IndexProofs", "IdxFed", "IdxSeg", "IdxBlock", "IdxLevel", "IdxSearch0", "IdxRoute", "IdxChain", "IdxMain", "IdxBeyond", "IdxFuel", "LeafTie", "FloatOkLemmas", "FloatOk"],
    entries=[("C02_search0", "@check", "C02_search0"),
             ("C02_search_scan", "@check", "C02_search_scan"),
             ("C02_search_partial", "@check", "C02_search_partial"),
             ("C02_lb_range_eq", "IndexProofs.v", "lb_range_eq"),
+            ("C02_search_lo_tie", "LeafTie.v", "search_lo_tie"),
+            ("C02_search_hi_tie", "LeafTie.v", "search_hi_tie"),
             ("C02_window_absent", "IndexProofs.v", "window_absent"),
             ("C02_judge_complete", "IndexProofs.v", "C02_pred_b_of_bounds")],
    examples="""Example C02_lb_range_instance : lb_range [1;3;3;7;9] 1 4 3 = lb [1;3;3;7;9] 3.
@@ -81,11 +93,13 @@ Proof. vm_compute. reflexivity. Qed.
      below and the level loop terminates -- this uses the translated 2^15 threshold and the cap of 20 chunks;
    * the window arithmetic on the translated macros.
    NOT proved: the trace bound for last < q < sentinel (the shared-key case gives 2eps_r+4 on paper); judged.""",
-   imports=["Base", "PlaModel", "PlaSpec", "GenLeaf", "IndexModel", "IndexProofs", "IdxFed", "IdxSeg", "IdxBlock", "IdxLevel", "IdxSearch0", "IdxRoute", "IdxChain", "IdxMain", "IdxBeyond", "IdxFuel"],
+   imports=["Base", "PlaModel", "PlaSpec", "GenLeaf", "IndexModel", "IndexProofs", "IdxFed", "IdxSeg", "IdxBlock", "IdxLevel", "IdxSearch0", "IdxRoute", "IdxChain", "IdxMain", "IdxBeyond", "IdxFuel", "LeafTie", "FloatOkLemmas", "FloatOk"],
    entries=[("C07_route_trace_partial", "@check", "C07_route_trace_partial"),
             ("C07_upper_count", "@check", "upper_count"),
             ("C07_build_level_shrinks", "@check", "build_level_shrinks"),
             ("C07_build_never_out_of_fuel", "IdxFuel.v", "build_never_out_of_fuel"),
+            ("C07_route_lo_tie", "LeafTie.v", "route_lo_tie"),
+            ("C07_route_hi_tie", "LeafTie.v", "route_hi_tie"),
             ("C07_route_window_scan", "IndexProofs.v", "route_window_scan"),
             ("C07_route_window_bsearch", "IndexProofs.v", "route_window_bsearch")]),
  "C03": dict(
@@ -253,9 +267,11 @@ Proof. eexists; eexists. split; [vm_compute; reflexivity | vm_compute; reflexivi
    * C18_dyn_find / C18_dyn_lower_bound: the dynamic wrappers against the ordered map (C05).
    PARTIAL like C01/C02: the composition with build/routing is tied by the correspondence check, which
    drives ONLY the extern "C" entry points of cpgm.h.""",
-   imports=["Base", "PlaModel", "PlaSpec", "GenLeaf", "IndexModel", "IndexProofs", "DynModel", "DynSpec", "DynCoreLemmas", "DynCoreInv",
+   imports=["Base", "PlaModel", "PlaSpec", "GenLeaf", "IndexModel", "IndexProofs", "LeafTie", "DynModel", "DynSpec", "DynCoreLemmas", "DynCoreInv",
             "DynCoreRefine", "DynCoreQuery", "DynCoreTotal", "DynCoreLB", "DynCore", "MultiModel", "VariantsModel", "MappedModel", "Reject"],
    entries=[("C18_create_null_iff_reserved", "Reject.v", "build_rejects_iff"),
+            ("C18_c_search_lo_tie", "LeafTie.v", "c_search_lo_tie"),
+            ("C18_c_search_hi_tie", "LeafTie.v", "c_search_hi_tie"),
             ("C18_window_present", "IndexProofs.v", "window_present"),
             ("C18_window_absent", "IndexProofs.v", "window_absent"),
             ("C18_lb_range_eq", "IndexProofs.v", "lb_range_eq"),
